@@ -441,9 +441,9 @@ private theorem untracked_set {t : Table} {seq : List (Key × Int)} (key : Key) 
     simp only [ek, this, if_false] at h1 h2; exact h u r h1 h2
 
 /-- one step of the table logic: never the `ValueError` branch, and the invariant is kept,
-    provided the estimate is positive and not below the key's previous estimate -/
+    provided the estimate is non-negative and not below the key's previous estimate -/
 theorem hhStep_inv {num : Int} {seq : List (Key × Int)} {s : HHS} (hnum : 1 ≤ num)
-    (hI : HHInv num seq s) (key : Key) (res : Int) (hr : 1 ≤ res)
+    (hI : HHInv num seq s) (key : Key) (res : Int) (hr : 0 ≤ res)
     (hm : ∀ v, lastRet seq key = some v → v ≤ res) :
     (hhStep num s key res).2 = .ok res ∧
       HHInv num (seq ++ [(key, res)]) (hhStep num s key res).1 := by
@@ -615,17 +615,17 @@ theorem hhStep_inv {num : Int} {seq : List (Key × Int)} {s : HHS} (hnum : 1 ≤
 
 /-! ### HeavyHitters: all histories -/
 
-/-- hypothesis on a history: every estimate is positive and not below the estimate the same key
+/-- hypothesis on a history: every estimate is non-negative and not below the estimate the same key
     got the time before (what a count-min sketch under additions delivers, see `CmsMono`) -/
 def MonoSeq (seq : List (Key × Int)) : Prop :=
-  ∀ pre k r post, seq = pre ++ (k, r) :: post → 1 ≤ r ∧ ∀ v, lastRet pre k = some v → v ≤ r
+  ∀ pre k r post, seq = pre ++ (k, r) :: post → 0 ≤ r ∧ ∀ v, lastRet pre k = some v → v ≤ r
 
 theorem monoSeq_nil : MonoSeq [] := by
   intro pre k r post h; simp at h
 
 theorem monoSeq_snoc (seq : List (Key × Int)) (p : Key × Int) :
     MonoSeq (seq ++ [p]) ↔
-      MonoSeq seq ∧ 1 ≤ p.2 ∧ ∀ v, lastRet seq p.1 = some v → v ≤ p.2 := by
+      MonoSeq seq ∧ 0 ≤ p.2 ∧ ∀ v, lastRet seq p.1 = some v → v ≤ p.2 := by
   constructor
   · intro h
     refine ⟨?_, ?_⟩
